@@ -233,45 +233,70 @@ Proof.
   - eexists. eapply D_unknown; eauto.
 Qed.
 
-Ltac one_elem H :=
-  match type of H with
-  | match ?sh with _ => _ end = true =>
-      destruct sh as [|[k c] [|? ?]]; try discriminate H
-  end.
+Section Eval.
+  Variable T : table.
+  Definition sound_set (S : list N) (sh : oshape) : Prop :=
+    forall i, In i S -> exists e, derives T i e /\ shape_of e = sh.
 
-Theorem produces_sound :
-  forall T fuel i sh, produces T fuel i sh = true -> exists e, derives T i e /\ shape_of e = sh.
-Proof.
-  intros T fuel. induction fuel as [|f IH]; intros i sh H; cbn [produces] in H; [discriminate|].
-  destruct (lookup T i) as [n|] eqn:L; [|discriminate]. apply lookup_sound in L. destruct L as [Hn Hi]. subst i.
-  destruct (n_kind n) eqn:K.
-  - apply existsb_exists in H. destruct H as [m [Hm Hp]]. destruct (IH _ _ Hp) as [e [D S]].
-    exists e. split; [eapply D_fun; eauto|exact S].
-  - one_elem H. apply andb_true_iff in H. destruct H as [H1 H2]. apply N.eqb_eq in H1, H2. subst.
-    eexists. split; [eapply D_leaf; eauto|reflexivity].
-  - one_elem H. apply andb_true_iff in H. destruct H as [H1 H2]. apply N.eqb_eq in H1, H2. subst.
-    eexists. split; [eapply D_ctx; eauto|reflexivity].
-  - one_elem H. apply andb_true_iff in H. destruct H as [H1 H2]. apply N.eqb_eq in H1, H2. subst.
-    eexists. split; [eapply D_bare; eauto|reflexivity].
-  - destruct sh as [|[k c] rest]; [discriminate|].
-    apply andb_true_iff in H. destruct H as [H12 H3]. apply andb_true_iff in H12. destruct H12 as [H1 H2].
-    apply N.eqb_eq in H1, H2. subst.
-    apply existsb_exists in H3. destruct H3 as [m [Hm Hp]]. destruct (IH _ _ Hp) as [e [D S]].
-    eexists. split; [eapply D_wrapw; eauto|]. cbn [shape_of]. now rewrite S.
-  - one_elem H. apply andb_true_iff in H. destruct H as [H1 H2].
-    apply existsb_exists in H2. destruct H2 as [m [Hm Hp]]. destruct (inhab_sound _ _ _ Hp) as [e D].
-    eexists. split; [eapply D_rewrapv; eauto|]. cbn [shape_of].
-    destruct (n_code n =? 0) eqn:Z.
-    + apply andb_true_iff in H1. destruct H1 as [Ha Hb]. apply N.eqb_eq in Ha, Hb. now subst.
-    + apply andb_true_iff in H1. destruct H1 as [Ha Hb]. apply N.eqb_eq in Ha, Hb. now subst.
-  - destruct sh as [|[k c] rest]; [discriminate|].
-    apply andb_true_iff in H. destruct H as [H12 H3]. apply andb_true_iff in H12. destruct H12 as [H1 H2].
-    apply N.eqb_eq in H1, H2. subst.
-    apply existsb_exists in H3. destruct H3 as [m [Hm Hp]]. destruct (IH _ _ Hp) as [e [D S]].
-    eexists. split; [eapply D_cause; eauto|]. cbn [shape_of]. now rewrite S.
-  - one_elem H. apply andb_true_iff in H. destruct H as [H1 H2]. apply N.eqb_eq in H1, H2. subst.
-    eexists. split; [eapply D_unknown; eauto|reflexivity].
-Qed.
+  Lemma close_sound : forall fuel S sh, sound_set S sh -> sound_set (close T fuel S) sh.
+  Proof.
+    induction fuel as [|f IH]; intros S sh HS; cbn [close]; [exact HS|].
+    destruct (fun_step T S) as [|x xs] eqn:E; [exact HS|].
+    apply IH. intros i Hi. apply in_app_or in Hi. destruct Hi as [Hi|Hi]; [|auto].
+    apply in_map_iff in Hi. destruct Hi as [n [Hid Hn]]. subst i. rewrite <- E in Hn.
+    unfold fun_step in Hn. apply filter_In in Hn. destruct Hn as [HnT Hc].
+    apply andb_true_iff in Hc. destruct Hc as [Hc Hex]. apply andb_true_iff in Hc. destruct Hc as [Hf _].
+    apply existsb_exists in Hex. destruct Hex as [m [Hm HmS]]. apply mem_In in HmS.
+    destruct (HS _ HmS) as [e [D Sh]]. exists e. split; [|exact Sh].
+    eapply D_fun; eauto. unfold is_fun in Hf. destruct (n_kind n); try discriminate Hf. reflexivity.
+  Qed.
+
+  Lemma term_sound : forall n k c, In n T -> term_match T n k c = true ->
+    exists e, derives T (n_id n) e /\ shape_of e = [(k, c)].
+  Proof.
+    intros n k c Hn H. unfold term_match in H. destruct (n_kind n) eqn:K; try discriminate H.
+    - apply andb_true_iff in H. destruct H as [H1 H2]. apply N.eqb_eq in H1, H2. subst.
+      eexists. split; [eapply D_leaf; eauto|reflexivity].
+    - apply andb_true_iff in H. destruct H as [H1 H2]. apply N.eqb_eq in H1, H2. subst.
+      eexists. split; [eapply D_ctx; eauto|reflexivity].
+    - apply andb_true_iff in H. destruct H as [H1 H2]. apply N.eqb_eq in H1, H2. subst.
+      eexists. split; [eapply D_bare; eauto|reflexivity].
+    - apply andb_true_iff in H. destruct H as [H1 H2].
+      apply existsb_exists in H2. destruct H2 as [m [Hm Hp]]. destruct (inhab_sound _ _ _ Hp) as [e D].
+      eexists. split; [eapply D_rewrapv; eauto|]. cbn [shape_of].
+      destruct (n_code n =? 0) eqn:Z; apply andb_true_iff in H1; destruct H1 as [Ha Hb];
+        apply N.eqb_eq in Ha, Hb; now subst.
+    - apply andb_true_iff in H. destruct H as [H1 H2]. apply N.eqb_eq in H1, H2. subst.
+      eexists. split; [eapply D_unknown; eauto|reflexivity].
+  Qed.
+
+  Lemma wrap_sound : forall n k c m e, In n T -> wrap_match n k c = true -> In m (n_inner n) -> derives T m e ->
+    exists e', derives T (n_id n) e' /\ shape_of e' = (k, c) :: shape_of e.
+  Proof.
+    intros n k c m e Hn H Hm D. unfold wrap_match in H. destruct (n_kind n) eqn:K; try discriminate H;
+      apply andb_true_iff in H; destruct H as [H1 H2]; apply N.eqb_eq in H1, H2; subst.
+    - eexists. split; [eapply D_wrapw; eauto|reflexivity].
+    - eexists. split; [eapply D_cause; eauto|reflexivity].
+  Qed.
+
+  Theorem prod_set_sound : forall sh, sound_set (prod_set T sh) sh.
+  Proof.
+    induction sh as [|[k c] rest IH]; [intros i []|].
+    cbn [prod_set]. apply close_sound. destruct rest as [|p rest'].
+    - intros i Hi. apply in_map_iff in Hi. destruct Hi as [n [Hid Hn]]. subst i.
+      apply filter_In in Hn. destruct Hn as [HnT Hm]. exact (term_sound n k c HnT Hm).
+    - intros i Hi. apply in_map_iff in Hi. destruct Hi as [n [Hid Hn]]. subst i.
+      apply filter_In in Hn. destruct Hn as [HnT Hc]. apply andb_true_iff in Hc. destruct Hc as [Hw Hex].
+      apply existsb_exists in Hex. destruct Hex as [m [Hm HmS]]. apply mem_In in HmS.
+      destruct (IH _ HmS) as [e [D Sh]].
+      destruct (wrap_sound n k c m e HnT Hw Hm D) as [e' [D' Sh']]. exists e'. split; [exact D'|].
+      rewrite Sh'. now rewrite Sh.
+  Qed.
+
+  Theorem produces_sound :
+    forall i sh, produces T i sh = true -> exists e, derives T i e /\ shape_of e = sh.
+  Proof. intros i sh H. unfold produces in H. apply mem_In in H. exact (prod_set_sound sh i H). Qed.
+End Eval.
 
 (* errors.Is read off the observed shape agrees with is_ctx of the value *)
 Lemma shape_is_ctx_correct : forall e, shape_is_ctx (shape_of e) = is_ctx e.
